@@ -165,6 +165,21 @@ CLAIMS = {
             "globs outside the table and `*` vs `/` subtleties of globset are not covered; bare flag + same flag with "
             "id is not generated (the property is silent)",
             "DESIGN.md section 3 C15"),
+    "C16": ("model_checking",
+            "TLA+ models of display_context, position arithmetic and the JSON printer machine (JsonOut.tla, Positions.tla) "
+            "model-checked by TLC; real CLI output (3 JSON styles, context flags, plain report) judged item by item by TLC "
+            "against the file bytes",
+            "MC_C16 checks, for every text up to the bound over newline/1/2/4-byte characters, every range and context, "
+            "that the byte loops of display_context yield exactly the covering lines plus context, and that the "
+            "before/process/after printer machine emits well-formed output for every buffer sequence (with empty "
+            "buffers) in all styles; MC_Positions checks the column/point scans. sgv run/scan is then executed on files "
+            "with multi-byte text, CRLF, a 1400-character line, matches at file start/end and no trailing newline, with "
+            "-A/-B/-C 0..2, --json=pretty|stream|compact over 1-4 files (some without matches), and with --color never "
+            "--heading never; Trace_C16 re-derives text, line/character column, lines, charCount, meta-variable ranges and "
+            "replacementOffsets from the file's character table, requires the output to parse in its style, and checks "
+            "every path:line:text entry against that line.",
+            "serde_json's serializer is trusted for the inside of one item; the harness-provided offset table is re-verified by TLC",
+            "DESIGN.md section 3 C16"),
 }
 
 NOT_YET = "check not built yet in this round (construction order in DESIGN.md section 9); not claimed until it runs"
